@@ -16,7 +16,7 @@ Definition jstr (v : option fjv) : bytes := match v with Some x => fj_string_byt
    Value.String() of a string value writes it back as JSON: when the text holds a quote, a backslash or a byte below
    0x20 it is re-escaped (strconv.AppendQuote) and asIRI sees the ESCAPED text - outside the model (None).  Otherwise
    asIRI sees the text itself, and the test is url_classify_u of Model/UrlU.v (net/url on all byte strings: bytes >= 0x80,
-   percent-escapes, spaces ...; userinfo and IP literals are outside that model: None).
+   percent-escapes, spaces, userinfo, IP literals ...).
    Some (Some s) = an IRI, Some None = not an IRI, None = outside the model. *)
 Definition fj_has_special (s : bytes) : bool :=
   existsb (fun b => Byte.eqb b x22 || Byte.eqb b x5c || (byteN b <? 32)%N) s.
